@@ -29,17 +29,19 @@ def _log_table(n, tag='l'):
     return out
 
 
-def _param_table(n, ext=False):
+def _param_table(n, ext=False, fp16=False):
     out = []
+    codes = PARAM_CODES + ([0x05] if fp16 else [])     # half-float parameters: in tables that are never read for values
     for i in range(n):
         g = 'p\xf8%d' % (i // 3) if i % 5 == 3 else 'pg%d' % (i // 3)
-        out.append(simcf.ParamVar(g, 'p%d' % i, PARAM_CODES[i % 10], value=i % 50, ro=(i % 4 == 1),
+        out.append(simcf.ParamVar(g, 'p%d' % i, codes[i % len(codes)], value=i % 50, ro=(i % 4 == 1),
                                   extended=ext and (i % 2 == 0), persistent=ext and (i % 4 == 0)))
     return out
 
 
-def _device(nlog, nparam, log_crc, param_crc, ext=False):
-    return simcf.SimCF(protocol=10, log=_log_table(nlog), params=_param_table(nparam, ext), log_crc=log_crc, param_crc=param_crc)
+def _device(nlog, nparam, log_crc, param_crc, ext=False, fp16=False):
+    return simcf.SimCF(protocol=10, log=_log_table(nlog), params=_param_table(nparam, ext, fp16), log_crc=log_crc,
+                       param_crc=param_crc)
 
 
 def _elements_from_device(dev, which):
@@ -86,7 +88,7 @@ def part_fetch(job):
     from cflib.crazyflie.toccache import TocCache
     which, n, ext, lo, hi = job
     p = Partial()
-    dev = _device(n if which == 'log' else 1, n if which == 'param' else 1, 0x1234ABCD, 0x0BADF00D, ext)
+    dev = _device(n if which == 'log' else 1, n if which == 'param' else 1, 0x1234ABCD, 0x0BADF00D, ext, fp16=True)
     crc = 0x1234ABCD if which == 'log' else 0x0BADF00D
     stored = _elements_from_device(dev, which)
     ref = _fp(stored)
